@@ -93,6 +93,11 @@ CHECKS = {
         note="Coq kernel + vm_compute; models Segment.v, Load.v, Tree.v; the tie of load_history / make_location_trees to the models is by the oracle (ground truth) rather than by a generated-cases comparison.",
         design="DESIGN.md section 5/C18",
     ),
+    "C19": dict(
+        text="Theorem over the reader protocol machine (Fresh / Suspended k / Finished; events next, close, drop; any fault position; path-owned or caller stream): for EVERY event trace the caller's stream is never closed, nothing is opened before the first next, exactly one file is held while suspended, and everything opened is closed once the generator has finished in whatever way; writers: write_csv closes what it opened whichever table fails, write_excel creates nothing unless all tables serialised. PARTIAL by nature: that CPython finalises a dropped generator at once and that closing(workbook) releases the archive handle are runtime facts, observed through /proc/self/fd after every event (also while the exception is alive) and compared with the model's ledger.",
+        note="Coq kernel + vm_compute; model Model/Lifecycle.v; H_gen_finalise; Linux /proc observation; nested generators of load_files are observed, modelled as a single reader.",
+        design="DESIGN.md section 5/C19",
+    ),
 }
 ALL = [f"C{n:02d}" for n in range(1, 21)]
 NOT_YET = {p: "check not built yet in this revision (planned, see DESIGN.md section 5); not a claim that the technique cannot apply" for p in ALL if p not in CHECKS}
